@@ -91,6 +91,7 @@ class Server:
     def __init__(self):
         self.data = {}          # key -> [kind, value, expire_at_ms | None]
         self.down = False
+        self.down_exc = None
         self.scripts = {}
         self.cursors = {}
         self.next_cursor = 1
@@ -153,7 +154,8 @@ class Server:
     # ---- dispatch ---------------------------------------------------------------
     def execute(self, *args):
         if self.down:
-            raise ConnectionError("server is down")
+            # how the outage shows: a refused / closed connection by default; the harness may choose a timeout or a bare OS error
+            raise (self.down_exc or ConnectionError)("server is down")
         name = _s(args[0]).upper()
         self.begin()
         try:
